@@ -63,7 +63,9 @@ def run(R):
               "unequal totals for the divergence. Mean width is compared with the Float run of the model on the SAME direction "
               "sample (regenerated from the seed), and with the closed form perimeter/pi * Gamma(3/2)Gamma(d/2)/Gamma((d+1)/2) on planar polygons in d dimensions; volume with closed forms; gamut ratios with "
               "their stated invariances (intensity scale, 1 relative to itself and positive whenever two chromaticities differ, <= 1 "
-              "relative to a superset, unchanged when non-negative mixtures of the rows are added = same convex hull); divergence with the Float model and the proved bounds. Non-trivial: dimension >= 2 with "
+              "relative to a superset, unchanged when non-negative mixtures of the rows are added = same convex hull; every second gamut "
+              "cloud is also measured with 1-2 zero-intensity (dark) rows at random positions, as measured and as reference cloud: 1 "
+              "relative to itself, <= 1 as a superset of the cloud without them; whether the metric itself is unchanged is recorded); divergence with the Float model and the proved bounds. Non-trivial: dimension >= 2 with "
               ">= 4 distinct points, or a divergence pair with unequal totals.")
     jobs = []
     for k in range(n):
@@ -181,17 +183,30 @@ def run(R):
             Cx = X / X.sum(1, keepdims=True)
             distinct = bool(np.max(np.abs(Cx - Cx[0])) > 1e-6)
             Xg = as_given(rb, X.copy(), R, "X")
+            # dark samples: every second cloud is also measured with 1-2 zero-intensity rows (all sources off: the capture point of a
+            # system with zero lower bounds and no baseline) at random positions -- as the measured cloud and as the reference cloud.
+            # A dark row has no chromaticity; the cloud with it is a superset of the cloud without it.
+            rd = R.rng(11, k); Xd = None
+            if rd.integers(2) == 0:
+                Xd = X.copy()
+                for _ in range(int(rd.integers(1, 3))):
+                    Xd = np.insert(Xd, int(rd.integers(0, len(Xd) + 1)), 0.0, axis=0)
+                Xdg = as_given(rd, Xd.copy(), R, "X-with-dark-rows")
+            R.count("gamut-dark-rows:%s" % ("none" if Xd is None else int(np.sum(Xd.sum(1) == 0))))
             c.update(nf=nf, X=X, metric=metric, seed=seed, flat=gflat, cloud=where, mixtures=Wm @ X,
-                     given_as=("list" if isinstance(Xg, list) else str(Xg.dtype)))
+                     given_as=("list" if isinstance(Xg, list) else str(Xg.dtype)), with_dark_rows=Xd)
             R.count("gamut:" + metric); R.count("gamut-cloud:%s" % ("flat:" + gflat if gflat else "full-dimensional"))
             R.count("gamut-where:" + where); R.count("gamut-rows-with-zero-channel:%s" % ("none" if not np.any(X == 0) else ("all" if np.all(np.any(X == 0, axis=1)) else "some")))
 
             def impl():
                 g = lambda Y, **kw: dreye.compute_gamut(Y, metric=metric, seed=seed, **kw)  # noqa: E731
-                return (g(Xg), g(X * scales), g(X, relative_to=X), g(sub, relative_to=X), (g(X, relative_to=sup) if sup is not None else 0.0),
-                        g(mixed), g(X, relative_to=mixed))
+                out = (g(Xg), g(X * scales), g(X, relative_to=X), g(sub, relative_to=X), (g(X, relative_to=sup) if sup is not None else 0.0),
+                       g(mixed), g(X, relative_to=mixed))
+                if Xd is not None:
+                    out += (g(Xdg), g(Xdg, relative_to=Xdg), g(Xd, relative_to=Xd.copy()), g(X, relative_to=Xdg), g(sub, relative_to=Xd))
+                return out
             st, out = call(impl)
-            jobs.append((c, st, out, dict(same_rank=same_rank, distinct=distinct, where=where, nf=nf, metric=metric)))
+            jobs.append((c, st, out, dict(same_rank=same_rank, distinct=distinct, where=where, nf=nf, metric=metric, dark=Xd is not None)))
         else:
             m = int(rng.integers(2, 9))
             P = dyadic(rng, 0, 4, 3, size=m); Q = dyadic(rng, 0, 4, 3, size=m)
@@ -249,7 +264,17 @@ def run(R):
             if abs(v - ex) > 1e-9 * (abs(ex) + 1.0):
                 R.failB(dict(c, impl=v), "volume %r, closed form %r (%s)" % (v, ex, c["family"]), sig + ":" + c["family"])
         elif what == "gamut":
-            g, gs, gself, gsub, gsup, gmix, gxmix = [float(v) for v in out]
+            g, gs, gself, gsub, gsup, gmix, gxmix = [float(v) for v in out[:7]]
+            if X_["dark"]:
+                gd, gdself, gdself2, gxd, gsubd = [float(v) for v in out[7:]]
+                R.count("gamut-dark-rows:metric-%s" % ("unchanged-by-dark-rows" if abs(gd - g) <= 1e-9 * (abs(g) + 1) else "changed-by-dark-rows(recorded)"))
+                for v_ in (gdself, gdself2):
+                    if (g != 0 or X_["distinct"]) and not abs(v_ - 1.0) <= 1e-12:
+                        R.failB(dict(c, impl=v_), "gamut of a cloud with zero-intensity (dark) rows relative to itself is %r" % v_, sig + ":self:dark-rows"); break
+                if gxd > 1.0 + 1e-9:
+                    R.failB(dict(c, impl=gxd), "gamut relative to a superset (the cloud plus dark rows) is %r > 1" % gxd, sig + ":superset:dark-rows")
+                if X_["same_rank"] and gsubd > 1.0 + 1e-9:
+                    R.failB(dict(c, impl=gsubd), "gamut of a subset relative to its superset (with dark rows) is %r > 1" % gsubd, sig + ":superset:dark-rows")
             if abs(gs - g) > 1e-9 * (abs(g) + 1):
                 R.failB(dict(c, impl=[g, gs]), "gamut metric changed when rows were rescaled in intensity: %r -> %r" % (g, gs), sig + ":intensity-scale")
             if X_["distinct"] and not g > 0:
